@@ -37,86 +37,188 @@ Proof.
 Qed.
 
 (* ------------------------------------------------------------------ @range *)
-Definition in_range (i stop incr : Z) : bool := ((incr >? 0) && (i <? stop) || (incr <? 0) && (i >? stop))%Z.
-
-Lemma range_count_step start stop incr : in_range start stop incr = true ->
-  range_count start stop incr = S (range_count (start + incr) stop incr).
+Lemma wrap64_id z : in_int64 z = true -> wrap64 z = z.
 Proof.
-  unfold in_range, range_count. intros H.
+  unfold in_int64, wrap64, min_int64, max_int64. intros H.
+  assert (0 <= z + 2 ^ 63 < 2 ^ 64)%Z by lia. rewrite Z.mod_small by assumption. lia.
+Qed.
+
+Lemma int_add_plain a b : in_int64 (a + b) = true -> int_add a b = (a + b)%Z.
+Proof. unfold int_add. intros H. cbv zeta. now rewrite H. Qed.
+
+Lemma range_countZ_step start stop incr : in_range start stop incr = true ->
+  range_countZ start stop incr = (range_countZ (start + incr) stop incr + 1)%Z /\
+  (0 <= range_countZ (start + incr) stop incr)%Z.
+Proof.
+  unfold in_range, range_countZ. intros H.
   destruct (incr >? 0)%Z eqn:E.
   - assert (start < stop)%Z by lia.
     replace (stop - start + incr - 1)%Z with ((stop - (start + incr) + incr - 1) + 1 * incr)%Z by lia.
-    rewrite Z.div_add by lia.
-    assert (0 <= (stop - (start + incr) + incr - 1) / incr)%Z by (apply Z.div_pos; lia). lia.
+    rewrite Z.div_add by lia. split; [reflexivity|]. apply Z.div_pos; lia.
   - assert (start > stop)%Z by lia.
     replace (start - stop + - incr - 1)%Z with ((start + incr - stop + - incr - 1) + 1 * (- incr))%Z by lia.
-    rewrite Z.div_add by lia.
-    assert (0 <= (start + incr - stop + - incr - 1) / - incr)%Z by (apply Z.div_pos; lia). lia.
+    rewrite Z.div_add by lia. split; [reflexivity|]. apply Z.div_pos; lia.
 Qed.
 
 (* [i] is either the start or one step past an element that was in range *)
 Definition range_inv (i stop incr : Z) : Prop :=
   (incr > 0 -> i <= stop + incr - 1)%Z /\ (incr < 0 -> i >= stop + incr + 1)%Z /\ incr <> 0%Z.
 
-Lemma range_count_stop i stop incr : range_inv i stop incr -> in_range i stop incr = false ->
-  range_count i stop incr = 0.
+Lemma range_countZ_stop i stop incr : range_inv i stop incr -> in_range i stop incr = false ->
+  range_countZ i stop incr = 0%Z.
 Proof.
-  unfold in_range, range_count, range_inv. intros (H1 & H2 & Hn) H.
-  destruct (incr >? 0)%Z eqn:E.
-  - rewrite Z.div_small by lia. reflexivity.
-  - rewrite Z.div_small by lia. reflexivity.
+  unfold in_range, range_countZ, range_inv. intros (H1 & H2 & Hn) H.
+  destruct (incr >? 0)%Z eqn:E; rewrite Z.div_small by lia; reflexivity.
 Qed.
 
-(* appending elements to a builder, the separator being written when the builder is not empty *)
-Definition app_items (sb : bytes) (l : list bytes) : bytes :=
-  match sb with [] => join0 l | _ => sb ++ sep_all l end.
-
-Lemma app_items_nil sb : app_items sb [] = sb.
-Proof. destruct sb; [reflexivity|]. unfold app_items, sep_all. cbn. now rewrite app_nil_r. Qed.
-
-Lemma range_loop_spec stop incr : forall fuel i sb,
-  range_inv i stop incr -> range_count i stop incr <= fuel ->
-  range_loop fuel i stop incr sb = app_items sb (map itoa (progression (range_count i stop incr) i incr)).
+Lemma range_countZ_nonneg i stop incr : range_inv i stop incr -> (0 <= range_countZ i stop incr)%Z.
 Proof.
-  induction fuel as [|f IH]; intros i sb Inv Hf.
-  - assert (E : range_count i stop incr = 0) by lia. rewrite E. cbn. now rewrite app_items_nil.
-  - cbn [range_loop]. fold (in_range i stop incr). destruct (in_range i stop incr) eqn:R.
-    + pose proof (range_count_step _ _ _ R) as Hc. rewrite Hc. cbn [progression map].
-      rewrite IH.
-      * pose proof (itoa_ne i) as Hi.
-        destruct sb as [|b sb].
-        -- cbn [app sepb]. unfold app_items at 2. rewrite join0_cons.
-           destruct (itoa i) eqn:Ei; [congruence|]. reflexivity.
-        -- unfold app_items. cbn [sepb]. destruct ((b :: sb) ++ [NUL] ++ itoa i) eqn:E; [destruct sb; discriminate|].
-           rewrite <- E. unfold sep_all. cbn [map concat]. now rewrite <- !app_assoc.
-      * unfold range_inv, in_range in *. lia.
-      * lia.
-    + rewrite (range_count_stop _ _ _ Inv R). cbn. now rewrite app_items_nil.
+  intros Inv. destruct (in_range i stop incr) eqn:R.
+  - pose proof (range_countZ_step _ _ _ R). lia.
+  - rewrite (range_countZ_stop _ _ _ Inv R). lia.
 Qed.
 
-Lemma range_count_le start stop incr : incr <> 0%Z -> (incr > 0 -> start <= stop)%Z -> (incr < 0 -> start >= stop)%Z ->
-  range_count start stop incr <= Z.to_nat (Z.abs (stop - start)).
+Lemma render_cons a chunks : render (a :: chunks) = render chunks ++ render_chunk a.
 Proof.
-  unfold range_count. intros Hn H1 H2. destruct (incr >? 0)%Z eqn:E.
+  unfold render. rewrite !rev_append_rev, !app_nil_r. cbn [rev]. rewrite map_app, concat_app. cbn.
+  now rewrite app_nil_r.
+Qed.
+
+(* what the builder holds once [l] has been appended, the separator being written before every
+   element but the very first of the builder *)
+Definition chunk_items (chunks : list rchunk) (l : list bytes) : bytes :=
+  render chunks ++ match chunks with [] => join0 l | _ => sep_all l end.
+
+Lemma chunk_items_nil chunks : chunk_items chunks [] = render chunks.
+Proof. unfold chunk_items. destruct chunks; unfold sep_all; cbn [map concat join0 join]; now rewrite app_nil_r. Qed.
+
+Lemma chunk_items_cons chunks i l :
+  chunk_items (RNum i :: match chunks with [] => chunks | _ => RSep :: chunks end) l
+  = chunk_items chunks (itoa i :: l).
+Proof.
+  unfold chunk_items. destruct chunks as [|c chunks].
+  - rewrite render_cons. cbn [render_chunk]. rewrite join0_cons. unfold render. cbn. reflexivity.
+  - rewrite !render_cons. cbn [render_chunk]. unfold sep_all at 2. cbn [map concat]. fold (sep_all l).
+    now rewrite <- !app_assoc.
+Qed.
+
+Section RangeGuarded.
+  Variables cap stop incr : Z.
+  (* the increment cannot overflow on an element that is in range, and [i] itself is an int64 *)
+  Hypothesis Hup : (incr > 0 -> stop + incr - 1 <= max_int64)%Z.
+  Hypothesis Hdn : (incr < 0 -> min_int64 <= stop + incr + 1)%Z.
+  Definition range_bnd (i : Z) : Prop := (incr > 0 -> min_int64 <= i)%Z /\ (incr < 0 -> i <= max_int64)%Z.
+
+  Lemma range_step_plain i : range_inv i stop incr -> range_bnd i -> in_range i stop incr = true ->
+    int_add i incr = (i + incr)%Z /\ range_inv (i + incr) stop incr /\ range_bnd (i + incr).
+  Proof.
+    unfold range_inv, range_bnd, in_range. intros (I1 & I2 & In) (B1 & B2) R.
+    split; [|split; [|split]; lia].
+    apply int_add_plain. unfold in_int64. unfold min_int64, max_int64 in *. lia.
+  Qed.
+
+  Lemma range_loop_under : forall fuel i count chunks,
+    range_inv i stop incr -> range_bnd i ->
+    (count + range_countZ i stop incr <= cap)%Z -> Z.to_nat (range_countZ i stop incr) < fuel ->
+    range_loop fuel cap i stop incr count chunks =
+    Some (chunk_items chunks (map itoa (progression (range_count i stop incr) i incr))).
+  Proof.
+    induction fuel as [|f IH]; intros i count chunks Inv Bnd Hc Hf; [lia|].
+    cbn [range_loop]. destruct (in_range i stop incr) eqn:R.
+    - destruct (range_countZ_step _ _ _ R) as [Hs Hp].
+      destruct (range_step_plain _ Inv Bnd R) as (Ha & Inv' & Bnd').
+      replace (count + 1 >? cap)%Z with false by lia.
+      rewrite Ha, IH by (assumption || lia).
+      rewrite chunk_items_cons. unfold range_count. rewrite Hs.
+      replace (Z.to_nat (range_countZ (i + incr) stop incr + 1)) with (S (Z.to_nat (range_countZ (i + incr) stop incr))) by lia.
+      reflexivity.
+    - unfold range_count. rewrite (range_countZ_stop _ _ _ Inv R). cbn. now rewrite chunk_items_nil.
+  Qed.
+
+  Lemma range_loop_over : forall fuel i count chunks,
+    range_inv i stop incr -> range_bnd i -> (0 <= count <= cap)%Z ->
+    (count + range_countZ i stop incr > cap)%Z -> Z.to_nat (cap - count) < fuel ->
+    range_loop fuel cap i stop incr count chunks = Some ErrorValue.
+  Proof.
+    induction fuel as [|f IH]; intros i count chunks Inv Bnd Hc Ho Hf; [lia|].
+    cbn [range_loop]. destruct (in_range i stop incr) eqn:R.
+    - destruct (range_countZ_step _ _ _ R) as [Hs Hp].
+      destruct (range_step_plain _ Inv Bnd R) as (Ha & Inv' & Bnd').
+      destruct (count + 1 >? cap)%Z eqn:E; [reflexivity|].
+      rewrite Ha. apply IH; (assumption || lia).
+    - rewrite (range_countZ_stop _ _ _ Inv R) in Ho. lia.
+  Qed.
+End RangeGuarded.
+
+(* whatever the arguments: the fuel is never exhausted *)
+Lemma range_loop_fuel cap stop incr : forall fuel i count chunks,
+  (0 <= count <= cap)%Z -> Z.to_nat (cap - count) < fuel ->
+  range_loop fuel cap i stop incr count chunks <> None.
+Proof.
+  induction fuel as [|f IH]; intros i count chunks Hc Hf; [lia|].
+  cbn [range_loop]. destruct (in_range i stop incr); [|discriminate].
+  destruct (count + 1 >? cap)%Z eqn:E; [discriminate|]. apply IH; lia.
+Qed.
+
+Lemma range_countZ_le start stop incr : incr <> 0%Z -> (incr > 0 -> start <= stop)%Z -> (incr < 0 -> start >= stop)%Z ->
+  (range_countZ start stop incr <= Z.abs (stop - start))%Z.
+Proof.
+  unfold range_countZ. intros Hn H1 H2. destruct (incr >? 0)%Z eqn:E.
   - assert ((stop - start + incr - 1) / incr < stop - start + 1)%Z; [|lia].
     apply Z.div_lt_upper_bound; nia.
   - assert ((start - stop + - incr - 1) / - incr < start - stop + 1)%Z; [|lia].
     apply Z.div_lt_upper_bound; nia.
 Qed.
 
-Theorem op_range_spec a b c : op_range a b c = spec_range a b c.
+Definition range_valid (start stop incr : Z) : Prop :=
+  incr <> 0%Z /\ (incr > 0 -> start <= stop)%Z /\ (incr < 0 -> start >= stop)%Z.
+
+(* the loop of kfArrayRange where no int64 overflow is possible *)
+Theorem range_run_guarded cap start stop incr : (0 <= cap)%Z ->
+  range_valid start stop incr -> range_no_wrap start stop incr = true ->
+  range_run cap start stop incr =
+  Some (if (range_countZ start stop incr >? cap)%Z then ErrorValue
+        else join0 (map itoa (progression (range_count start stop incr) start incr))).
 Proof.
-  unfold op_range, spec_range.
+  intros Hcap (Hn & H1 & H2) G. unfold range_run, range_fuel. rewrite G.
+  unfold range_no_wrap, in_int64 in G.
+  assert (Hup : (incr > 0 -> stop + incr - 1 <= max_int64)%Z) by (destruct (incr >? 0)%Z eqn:E; lia).
+  assert (Hdn : (incr < 0 -> min_int64 <= stop + incr + 1)%Z) by (destruct (incr >? 0)%Z eqn:E; lia).
+  assert (Inv : range_inv start stop incr) by (unfold range_inv; lia).
+  assert (Bnd : range_bnd incr start) by (unfold range_bnd; lia).
+  pose proof (range_countZ_le start stop incr Hn H1 H2) as Hle.
+  pose proof (range_countZ_nonneg _ _ _ Inv) as Hnn.
+  destruct (range_countZ start stop incr >? cap)%Z eqn:E.
+  - apply (range_loop_over cap stop incr Hup Hdn); try assumption; lia.
+  - rewrite (range_loop_under cap stop incr Hup Hdn); try assumption; try lia. reflexivity.
+Qed.
+
+Theorem range_fuel_enough cap start stop incr : (0 <= cap)%Z ->
+  range_valid start stop incr -> range_run cap start stop incr <> None.
+Proof.
+  intros Hcap V. destruct (range_no_wrap start stop incr) eqn:G.
+  - rewrite (range_run_guarded _ _ _ _ Hcap V G). discriminate.
+  - unfold range_run, range_fuel. rewrite G. apply range_loop_fuel; lia.
+Qed.
+
+Theorem op_range_cap_spec cap a b c : (0 <= cap)%Z -> op_range_cap cap a b c = spec_range_cap cap a b c.
+Proof.
+  intros Hcap. unfold op_range_cap, spec_range_cap.
   destruct (atoi a) as [start|]; [|reflexivity].
   destruct (atoi b) as [stop|]; [|reflexivity].
   destruct (atoi c) as [incr|]; [|reflexivity].
   destruct (incr =? 0)%Z eqn:E0; [reflexivity|]. cbn [orb].
   destruct ((incr >? 0) && (start >? stop))%Z eqn:E1; [reflexivity|]. cbn [orb].
   destruct ((incr <? 0) && (start <? stop))%Z eqn:E2; [reflexivity|].
-  rewrite range_loop_spec; [reflexivity| |].
-  - unfold range_inv. lia.
-  - apply range_count_le; lia.
+  destruct (range_no_wrap start stop incr) eqn:G; [|reflexivity].
+  rewrite range_run_guarded; [reflexivity|assumption| |assumption]. unfold range_valid. lia.
 Qed.
+
+Lemma max_range_nonneg : (0 <= MaxRangeElements)%Z.
+Proof. vm_compute. discriminate. Qed.
+
+Theorem op_range_spec a b c : op_range a b c = spec_range a b c.
+Proof. apply op_range_cap_spec, max_range_nonneg. Qed.
 
 Lemma progression_nth n : forall start incr k, k < n ->
   nth k (progression n start incr) 0%Z = (start + Z.of_nat k * incr)%Z.
@@ -130,18 +232,20 @@ Proof. induction n; intros; cbn; auto. Qed.
 
 (* ------------------------------------------------------------------ @for *)
 Section For.
+  Variable maxb : Z.
   Variables cond incr : bytes -> bytes -> bytes.
 
-  Lemma for_loop_spec : forall fuel val idx first chunks,
-    for_loop fuel cond incr val idx first chunks =
-    match for_list fuel cond incr val idx with
+  Lemma for_loop_spec : forall fuel val idx len first chunks,
+    for_loop fuel maxb cond incr val idx len first chunks =
+    match for_list fuel maxb cond incr val idx len first with
     | None => ForInfMarker
     | Some l => concat (rev chunks) ++ (if first then join0 l else sep_all l)
     end.
   Proof.
-    induction fuel as [|f IH]; intros val idx first chunks; [reflexivity|].
+    induction fuel as [|f IH]; intros val idx len first chunks; [reflexivity|].
     cbn [for_loop for_list]. rewrite rev_append_rev, app_nil_r. destruct (truthy (cond val (dec_str idx))).
-    - rewrite IH. destruct (for_list f cond incr (incr val (dec_str idx)) (dec_succ idx)) as [l|]; [|reflexivity].
+    - cbv zeta. destruct (_ >? maxb)%Z; [reflexivity|].
+      rewrite IH. destruct (for_list f maxb cond incr (incr val (dec_str idx)) (dec_succ idx) _ false) as [l|]; [|reflexivity].
       cbn [option_map]. destruct first.
       + cbn [rev]. rewrite concat_app. cbn [concat]. rewrite app_nil_r, join0_cons. now rewrite <- app_assoc.
       + cbn [rev]. rewrite !concat_app. cbn [concat]. rewrite !app_nil_r.
@@ -149,10 +253,10 @@ Section For.
     - destruct first; unfold sep_all; cbn; now rewrite app_nil_r.
   Qed.
 
-  Theorem op_for_spec cap start : op_for cap cond incr start = spec_for cap cond incr start.
+  Theorem op_for_spec cap start : op_for cap maxb cond incr start = spec_for cap maxb cond incr start.
   Proof.
     unfold op_for, spec_for. rewrite for_loop_spec.
-    destruct (for_list (S cap) cond incr start dec_zero); reflexivity.
+    destruct (for_list (S cap) maxb cond incr start dec_zero 0%Z true); reflexivity.
   Qed.
 
   (* the state of the loop at the beginning of round k *)
@@ -164,33 +268,83 @@ Section For.
   Definition for_val (v : bytes) (d : list N) (k : nat) : bytes := fst (for_state k v d).
   Definition for_cond (v : bytes) (d : list N) (k : nat) : bool :=
     truthy (cond (fst (for_state k v d)) (dec_str (snd (for_state k v d)))).
+  (* length of the builder after k rounds *)
+  Fixpoint for_len (k : nat) (v : bytes) (d : list N) (len : Z) (first : bool) : Z :=
+    match k with
+    | O => len
+    | S k' => for_len k' (incr v (dec_str d)) (dec_succ d)
+                (len + (if first then 0 else 1) + Z.of_nat (length v))%Z false
+    end.
 
-  Lemma for_list_stops : forall n fuel v d, n < fuel ->
-    (forall k, k < n -> for_cond v d k = true) -> for_cond v d n = false ->
-    for_list fuel cond incr v d = Some (map (for_val v d) (seq 0 n)).
+  Lemma for_len_ge : forall k v d len first, (len <= for_len k v d len first)%Z.
   Proof.
-    induction n as [|n IH]; intros fuel v d Hf Ht Hs; (destruct fuel as [|f]; [lia|]); cbn [for_list].
+    induction k as [|k IH]; intros v d len first; cbn [for_len]; [lia|].
+    etransitivity; [|apply IH]. destruct first; lia.
+  Qed.
+
+  (* ... which is the length of the elements written so far, joined *)
+  Lemma for_len_joined : forall k v d len first,
+    for_len k v d len first =
+    (len + Z.of_nat (length (if first then join0 (map (for_val v d) (seq 0 k)) else sep_all (map (for_val v d) (seq 0 k)))))%Z.
+  Proof.
+    induction k as [|k IH]; intros v d len first; cbn [for_len].
+    - destruct first; cbn; lia.
+    - rewrite IH. cbn [seq map]. rewrite <- seq_shift, map_map.
+      change (map (fun x => for_val v d (S x)) (seq 0 k)) with (map (for_val (incr v (dec_str d)) (dec_succ d)) (seq 0 k)).
+      set (l := map (for_val (incr v (dec_str d)) (dec_succ d)) (seq 0 k)).
+      change (for_val v d 0) with v.
+      destruct first.
+      + rewrite join0_cons, app_length. lia.
+      + unfold sep_all at 2. cbn [map concat]. fold (sep_all l). rewrite !app_length. cbn [length]. lia.
+  Qed.
+
+  Lemma for_list_stops : forall n fuel v d len first, n < fuel ->
+    (forall k, k < n -> for_cond v d k = true) -> for_cond v d n = false ->
+    (for_len n v d len first <= maxb)%Z ->
+    for_list fuel maxb cond incr v d len first = Some (map (for_val v d) (seq 0 n)).
+  Proof.
+    induction n as [|n IH]; intros fuel v d len first Hf Ht Hs Hb; (destruct fuel as [|f]; [lia|]); cbn [for_list].
     - unfold for_cond in Hs. cbn [for_state fst snd] in Hs. now rewrite Hs.
     - pose proof (Ht 0 ltac:(lia)) as H0. unfold for_cond in H0. cbn [for_state fst snd] in H0. rewrite H0.
-      rewrite (IH f (incr v (dec_str d)) (dec_succ d)); [| lia | |].
+      cbv zeta. cbn [for_len] in Hb.
+      pose proof (for_len_ge n (incr v (dec_str d)) (dec_succ d) (len + (if first then 0 else 1) + Z.of_nat (length v)) false) as Hge.
+      replace (_ >? maxb)%Z with false by lia.
+      rewrite (IH f (incr v (dec_str d)) (dec_succ d)); [| lia | | |].
       + cbn [option_map seq map]. f_equal. f_equal. rewrite <- seq_shift, map_map. reflexivity.
       + intros k Hk. apply (Ht (S k)). lia.
       + exact Hs.
+      + exact Hb.
   Qed.
 
-  Lemma for_list_runs : forall fuel v d,
-    (forall k, k < fuel -> for_cond v d k = true) -> for_list fuel cond incr v d = None.
+  (* the condition stays truthy for all the rounds the iteration cap allows *)
+  Lemma for_list_runs : forall fuel v d len first,
+    (forall k, k < fuel -> for_cond v d k = true) -> for_list fuel maxb cond incr v d len first = None.
   Proof.
-    induction fuel as [|f IH]; intros v d Ht; [reflexivity|]. cbn [for_list].
+    induction fuel as [|f IH]; intros v d len first Ht; [reflexivity|]. cbn [for_list].
     pose proof (Ht 0 ltac:(lia)) as H0. unfold for_cond in H0. cbn [for_state fst snd] in H0. rewrite H0.
+    cbv zeta. destruct (_ >? maxb)%Z; [reflexivity|].
     rewrite IH; [reflexivity|]. intros k Hk. apply (Ht (S k)). lia.
+  Qed.
+
+  (* the builder exceeds the output bound while the condition is still truthy *)
+  Lemma for_list_bytes : forall m fuel v d len first,
+    (forall k, k <= m -> for_cond v d k = true) -> (for_len (S m) v d len first > maxb)%Z ->
+    for_list fuel maxb cond incr v d len first = None.
+  Proof.
+    induction m as [|m IH]; intros fuel v d len first Ht Hb; (destruct fuel as [|f]; [reflexivity|]); cbn [for_list];
+      pose proof (Ht 0 ltac:(lia)) as H0; unfold for_cond in H0; cbn [for_state fst snd] in H0; rewrite H0; cbv zeta.
+    - cbn [for_len] in Hb. now replace (_ >? maxb)%Z with true by lia.
+    - destruct (_ >? maxb)%Z; [reflexivity|].
+      rewrite (IH f); [reflexivity| |].
+      + intros k Hk. apply (Ht (S k)). lia.
+      + exact Hb.
   Qed.
 End For.
 
-Lemma for_list_ext c1 c2 i1 i2 : (forall a b, c1 a b = c2 a b) -> (forall a b, i1 a b = i2 a b) ->
-  forall fuel v d, for_list fuel c1 i1 v d = for_list fuel c2 i2 v d.
+Lemma for_list_ext maxb c1 c2 i1 i2 : (forall a b, c1 a b = c2 a b) -> (forall a b, i1 a b = i2 a b) ->
+  forall fuel v d len first, for_list fuel maxb c1 i1 v d len first = for_list fuel maxb c2 i2 v d len first.
 Proof.
-  intros Hc Hi. induction fuel as [|f IH]; intros v d; [reflexivity|].
+  intros Hc Hi. induction fuel as [|f IH]; intros v d len first; [reflexivity|].
   cbn [for_list]. now rewrite Hc, Hi, IH.
 Qed.
 
